@@ -397,8 +397,9 @@ class Matcher:
             b = got[0][1]
         return False, "constructs occur but not with one consistent assignment of variables"
 
-    def expr(self, node):
-        return self._exp.expand(node)
+    def expr(self, node, keep=()):
+        """``node`` with temporaries expanded, except the variables named in ``keep``."""
+        return self._exp.expand(node, skip=frozenset(keep))
 
 
 def src(n) -> str:
